@@ -10,6 +10,10 @@ CHECKS = {
    technique="explicit-state BFS over B-tree shapes on the real dns.btree (history replay), reference sorted-list model",
    text="Every B-tree shape reachable with <= N keys (t=3,4; in_order on/off; dict and set) is visited by BFS whose transitions run the real insert/replace/delete code; after every transition structural invariants and agreement with a sorted-list model are checked, and at every state (up to stated sizes) clone/freeze isolation by identity-level snapshots, all cursor seek/step patterns and parked cursors across every mutation.",
    note="Keys abstracted to ranks (algorithm only compares keys); bounded key count (height <= 3); t in {3,4}; single-threaded (the B-tree is documented as not thread-safe)."),
+ "C12": dict(level="model_checking", ref="DESIGN.md §2 C12",
+   technique="stateless schedule exploration (DFS over choice prefixes, iterative preemption bounding) of real threads on the real versioned zone under a cooperative threading shim with line-level scheduling points",
+   text="Every interleaving (up to the stated preemption bound; every line of the writer-admission/commit/reader code and every blocking lock/event operation is a scheduling point) of 2-5 writer threads (commit, rollback, exception-in-with) and 0-2 reader threads is executed on the real dns.versioned.Zone / dns.btreezone.Zone; each complete execution is judged for mutual exclusion, FIFO admission (arrival = first acquisition of the version lock), absence of deadlock/lost wake-up, final state = serial application in admission order, and readers seeing exactly one committed prefix; no blocking while holding the lock.",
+   note="Bounded threads and preemptions; a source line is the atomic step (CPython bytecode-level races inside one line are not modelled); the cooperative shim replaces dns.versioned.threading (a short free-running pass with real threading runs the same bodies)."),
 }
 ALL = ["C%02d" % i for i in range(1, 21)]
 m = {
